@@ -5,6 +5,11 @@ Exactly-once ledger kept beside the real code (the simulated workers are the led
 * C03.one-message   every unit released by schedule.next_job_batch() during a dispatch becomes exactly one task
                     message (farm._put), and messages are conserved:
                     queued-before + put == queued-after + handed-to-workers  (as multisets of job, target, run id);
+                    fault injection (event tick-dbfault: dawgie.db.next() raises while a released job asks for
+                    its run id inside farm.dispatch, which swallows the exception): a released unit that got no
+                    message in that dispatch must not be lost - it is either back in its node's todo or kept
+                    for the next dispatch (farm._jobs + the node's do) - and the next fault-free dispatch must
+                    turn every unit kept that way into exactly one task message;
 * C03.one-worker    a worker is handed at most one task message per dispatch (and by conservation no message
                     is handed to two workers; an unsent one stays queued);
 * C03.single-flight at most one execution of (algorithm, target) is held by the workers at any time;
@@ -22,7 +27,12 @@ import time
 from . import _sched_sim as X
 
 PROPERTY = 'C03'
-BOUND = X.BOUND_TEXT
+BOUND = X.BOUND_TEXT + (
+    '; fault injection (db.next() raising during one dispatch tick per history, offered when a job may ask for a '
+    'run id): quick: the 11 curated DAGs x {1 target/1 worker: all event sequences of length <= 4 (3 for the '
+    '4-node graphs), 2 targets/2 workers: <= 3} plus 3 seeded histories of length 8..11 each; thorough: the curated DAGs x '
+    '{1,2 targets} x {1,2 workers} to length 7 cut at 6000 transitions plus 10 seeded histories each'
+)
 CLAUSES = [
     'C03.one-message',
     'C03.one-worker',
@@ -41,37 +51,81 @@ class Mon(X.Monitor):
     reply of ANOTHER unit while they were executing (used only to give the consequences of that one cause -
     dropped reply, second execution, wrong crew view - stable signatures)'''
 
+    fault_ticks_hit = 0  # statistics (this process only): faulty ticks in which db.next() was really asked
+
     def reset(self):
         self.purged = frozenset()
         self.tainted = frozenset()  # units released a second time while such a purged execution was in flight
+        # units released in a dispatch whose run-id request failed (injected fault) and kept for the next one
+        self.carried = ()
 
     def state(self):
-        return (self.purged, self.tainted)
+        return (self.purged, self.tainted, self.carried)
 
     def restore(self, st):
-        self.purged, self.tainted = st
+        self.purged, self.tainted, self.carried = st
 
     def key(self):
-        return (self.purged, self.tainted)
+        return (self.purged, self.tainted, self.carried)
 
     def after(self, sim, ev, rec):
         out = X.common_violations(PROPERTY, rec)
         pre, post = rec['pre'], rec['post']
-        if ev[0] == 'tick':
+        if ev[0] in ('tick', 'tick-dbfault'):
             released = []
             for b in rec['trace']['njb']:
                 released.extend(b['released'])
             puts = [(tag, tgt if tgt else X.ALL) for tag, _rid, tgt in rec['trace']['put']]
-            if collections.Counter(puts) != collections.Counter(released) or post['jobs']:
-                out.append(
-                    {
-                        'clause': 'C03.one-message',
-                        'signature': 'released-units-vs-task-messages',
-                        'observed': {'released': sorted(released), 'put': sorted(puts),
-                                     'farm._jobs_after': post['jobs']},
-                        'expected': 'exactly one task message per released unit, none left in farm._jobs',
-                    }
-                )  # fmt: skip
+            faulted = ev[0] == 'tick-dbfault' and rec.get('db_fault_hits', 0) > 0
+            Mon.fault_ticks_hit += 1 if faulted else 0
+            due = collections.Counter(released) + collections.Counter(self.carried)
+            got = collections.Counter(puts)
+            if not faulted:
+                if got != due or post['jobs']:
+                    out.append(
+                        {
+                            'clause': 'C03.one-message',
+                            'signature': 'released-units-vs-task-messages'
+                            if not self.carried
+                            else 'units-kept-after-run-id-failure-vs-task-messages',
+                            'observed': {'released': sorted(released), 'put': sorted(puts),
+                                         'farm._jobs_after': post['jobs'],
+                                         **({'kept_from_failed_dispatch': sorted(self.carried)}
+                                            if self.carried else {})},
+                            'expected': 'exactly one task message per released unit, none left in farm._jobs',
+                        }
+                    )  # fmt: skip
+                self.carried = ()
+            else:
+                # db.next() failed inside this dispatch: what got no message must not be lost
+                extra = got - due
+                rest = due - got
+                kept, back, lost = [], [], []
+                for unit in sorted(rest.elements()):
+                    tag, tgt = unit
+                    if tag in post['jobs'] and tgt in post['nodes'][tag]['do']:
+                        kept.append(unit)
+                    elif tgt in post['nodes'][tag]['todo']:
+                        back.append(unit)
+                    else:
+                        lost.append(unit)
+                if extra or lost:
+                    out.append(
+                        {
+                            'clause': 'C03.one-message',
+                            'signature': 'released-unit-lost-on-run-id-failure'
+                            if lost
+                            else 'released-units-vs-task-messages',
+                            'observed': {'released': sorted(released), 'put': sorted(puts), 'lost': lost,
+                                         'kept_from_failed_dispatch': sorted(self.carried),
+                                         'farm._jobs_after': post['jobs'],
+                                         'nodes_after': {t: post['nodes'][t] for t, _x in lost},
+                                         'db.next_failures': rec.get('db_fault_hits')},
+                            'expected': 'a released unit without a task message stays pending: back in todo, or '
+                            'kept in farm._jobs with its target in do for the next dispatch',
+                        }
+                    )  # fmt: skip
+                self.carried = tuple(kept)
             lhs = collections.Counter(rec['cluster_pre']) + collections.Counter(
                 (tag, tgt if tgt else X.ALL, rid) for tag, rid, tgt in rec['trace']['put']
             )
@@ -179,14 +233,51 @@ def _job(job):
 CFG = {}
 WALK_CFG = {'run_all': True, 'timers': True, 'run_empty': True}
 # re-requests of executing units and replies are what matters here: bias the random part towards them
-BIAS = {'run': 1.5, 'timer': 0.3, 'tick': 2.5, 'reply': 1.0}
+BIAS = {'run': 1.5, 'timer': 0.3, 'tick': 2.5, 'tick-dbfault': 1.0, 'reply': 1.0}
+FAULT_CFG = {'db_faults': 1}
+FAULT_WALK_CFG = {'run_all': True, 'timers': True, 'run_empty': True, 'db_faults': 1}
+
+
+def _fault_jobs(tier, seed, deadline):
+    '''universes explored with one faulty dispatch tick (db.next() raising) per history'''
+    jobs = []
+    for k, spec in enumerate(X.curated_specs()):
+        big = spec.n >= 4
+        if tier == 'quick':
+            plan = ((['T1'], 1, 3 if big else 4, 10**9, 3, 8), (['T1', 'T2'], 2, 3, 10**9, 3, 9))
+        else:
+            plan = tuple((t, w, 7, 6000, 10, 16) for t in (['T1'], ['T1', 'T2']) for w in (1, 2))
+        for targets, workers, depth, cap, walks, walk_len in plan:
+            jobs.append(
+                {
+                    'universe': X.Universe(spec, targets, workers).to_json(), 'cfg': FAULT_CFG,
+                    'walk_cfg': FAULT_WALK_CFG, 'depth': depth, 'cap': cap, 'walks': walks,
+                    'walk_len': walk_len + k % 3, 'seed': seed, 'deadline': deadline, 'drain': None,
+                    'bias': BIAS, 'sample': k == 0 and len(targets) == 1 and workers == 1,
+                }
+            )  # fmt: skip
+    return jobs
 
 
 def run(tier, seed):
     t0 = time.time()
     deadline = t0 + (14 if tier == 'quick' else 230)
     jobs = X.tier_jobs(tier, seed, deadline, CFG, WALK_CFG, bias=BIAS)
-    return X.run_tier(PROPERTY, tier, seed, jobs, _job, Mon, X.RULE, CLAUSES, t0)
+    if tier == 'quick':
+        jobs = jobs + _fault_jobs(tier, seed, deadline)
+    else:  # long jobs first
+        jobs = _fault_jobs(tier, seed, deadline) + jobs
+    rule = X.RULE + (
+        '  Fault part (C03 only): the same exploration with one more event, a dispatch tick during which '
+        'dawgie.db.next() raises, offered once per history in states where a job may ask for a run id.'
+    )
+    Mon.fault_ticks_hit = 0
+    out = X.run_tier(PROPERTY, tier, seed, jobs, _job, Mon, rule, CLAUSES, t0)
+    if tier == 'quick':  # one process: the count is complete; the fault part must not be vacuous
+        out['db_fault_ticks_hit'] = Mon.fault_ticks_hit
+        if not Mon.fault_ticks_hit:
+            raise RuntimeError('C03 harness: no injected db.next() failure was ever reached')
+    return out
 
 
 def replay(case):
